@@ -218,8 +218,12 @@ def _fold(rep, contract_mod, r, meta, verbose):
     clause = meta.get("clause", hname)
     label = meta.get("label", "P")
     if r.get("timeout"):
-        rep.add(Obligation("%s/%s" % (hname, "within-budget"), clause, "harness finishes within its budget", UNDECIDED,
-                           "engine", r.get("wall", 0), label=label, detail=r["error"]))
+        ob = Obligation("%s/%s" % (hname, "within-budget"), clause, "harness finishes within its budget", UNDECIDED,
+                        "engine", r.get("wall", 0), label=label, detail=r["error"])
+        ob.harness = hname
+        ob.contract_mod = contract_mod
+        ob.any_obligation = True
+        rep.add(ob)
         return
     if "error" in r:
         rep.add(Obligation("%s/%s" % (hname, "engine"), clause, "harness runs", ERROR, "engine", r.get("wall", 0),
@@ -247,8 +251,11 @@ def _fold(rep, contract_mod, r, meta, verbose):
             rep.add(ob)
         else:
             bad = [o for o in os_ if o["status"] != "unsat"][0]
-            rep.add(Obligation(oid, clause, bad["goal"], UNDECIDED, bad["backend"], t, label=lab, vcs=len(os_),
-                               detail="solver: %s" % bad["detail"]))
+            ob = Obligation(oid, clause, bad["goal"], UNDECIDED, bad["backend"], t, label=lab, vcs=len(os_),
+                            detail="solver: %s" % bad["detail"])
+            ob.harness = hname
+            ob.contract_mod = contract_mod
+            rep.add(ob)
     if r["uncaught"]:
         us = r["uncaught"]
         u = ([x for x in us if x["status"] == "sat"] or us)[0]
@@ -278,8 +285,12 @@ def _fold(rep, contract_mod, r, meta, verbose):
                            "the code under test does not read the withheld inputs (%s)" % meta.get("withheld"),
                            DISCHARGED, "dependence-tracking", 0.0, label=label, vcs=r["paths"]))
     for u in sorted(set(r["unsupported"])):
-        rep.add(Obligation("%s/in-subset" % hname, clause, "all code reached by the harness is inside the executor's subset",
-                           UNDECIDED, "engine", 0.0, label=label, detail=u))
+        ob = Obligation("%s/in-subset" % hname, clause, "all code reached by the harness is inside the executor's subset",
+                        UNDECIDED, "engine", 0.0, label=label, detail=u)
+        ob.harness = hname
+        ob.contract_mod = contract_mod
+        ob.any_obligation = True
+        rep.add(ob)
     if r["completed"] == 0 and not r["unsupported"] and not r["uncaught"]:
         rep.engine_error("vacuity guard: harness %s has no feasible completed path" % hname)
     for c in meta.get("covers", []) if isinstance(meta.get("covers"), (list, tuple)) else []:
